@@ -182,6 +182,9 @@ def format_trivia(trivia_list: list[Any], indent: int = 0) -> str:
                 parts.append("\n")
                 ends_with_newline = True
         elif isinstance(item, (Comment, MultilineComment, Assertion)):
+            if parts and ends_with_newline and getattr(item, "inline", False):
+                # An inline comment cannot continue a line that already ended.
+                item = replace(item, inline=False)
             parts.append(item.rebuild(indent=indent))
             parts.append("\n")
             ends_with_newline = True
@@ -679,7 +682,14 @@ def apply_trailing_trivia(rebuilt: str, after: list[Any], *, indent: int) -> str
         return rebuilt
     if isinstance(after[0], Comment) and after[0].inline:
         inline_comment = after[0].rebuild(indent=0)
-        trailing = format_trivia(after[1:], indent=indent)
+        # Only the first comment can share the line; later ones start their own.
+        rest = [
+            replace(item, inline=False)
+            if isinstance(item, Comment) and item.inline
+            else item
+            for item in after[1:]
+        ]
+        trailing = format_trivia(rest, indent=indent)
         trailing = trim_trailing_layout_newline(after, trailing)
         return f"{rebuilt} {inline_comment}" + (f"\n{trailing}" if trailing else "")
 
